@@ -8,6 +8,7 @@
 #include <linux/futex.h>
 #include <poll.h>
 #include <pthread.h>
+#include <sched.h>
 #include <signal.h>
 #include <stdarg.h>
 #include <stdlib.h>
@@ -944,9 +945,15 @@ wall(void)
 static void
 slock(void)
 {
+	int spins = 0;
 	while (__atomic_exchange_n(&S->lock, 1, __ATOMIC_ACQUIRE))
-		while (S->lock)
+		while (S->lock) {
 			__builtin_ia32_pause();
+			if (++spins > 200) { // oversubscribed machine: do not burn CPU
+				sched_yield();
+				spins = 0;
+			}
+		}
 }
 static void
 sunlock(void)
